@@ -957,7 +957,7 @@ impl<K: El, V: El> Mon<K, V> {
                         let (kk, v) = (K::mk(kv), V::mk(kv));
                         self.model.insert(kv, Slot { kid: kk.id(), vid: v.id(), pay: kv });
                         // any key-adding call must do: vary the one used
-                        if add_new_key(&mut self.map, kk, v, mix(kv ^ 0xadd)) {
+                        if add_new_key(&mut self.map, kk, v, mix(kv ^ 0xadd) % 6) {
                             viol!("C10", "fresh key {kv} reported as present while filling with_capacity({n})");
                         }
                     }
@@ -1110,19 +1110,28 @@ impl<K: El, V: El> Mon<K, V> {
         let promised = std::mem::take(&mut self.promised);
         // the key-adding call used varies (insert, entry and raw-entry insertions); one probe in
         // four sticks to insert()
-        let vary = self.nops % 4 != 3;
+        // three styles: every key through insert(); every key through one other call (a defect
+        // in one call's bookkeeping needs a run of that call to show); a different call per key
+        let style = self.nops % 4;
+        let fixed = 1 + (self.nops / 4) % 7;
+        let pick = |kv: u64| match style {
+            3 => 0,
+            2 => fixed,
+            _ => mix(kv ^ 0xadd),
+        };
         for i in 0..n {
-            let more: &'static [&'static str] = if i < promised { &["C10"] } else { &[] };
+            // a panic in a key-adding call is also C01's "no call panics"
+            let more: &'static [&'static str] = if i < promised { &["C10", "C01"] } else { &["C01"] };
             let kv = self.next_fresh();
             let (kk, v) = (K::mk(kv), V::mk(kv));
             self.model.insert(kv, Slot { kid: kk.id(), vid: v.id(), pay: kv });
             let map = &mut self.map;
-            let how = if vary { mix(kv ^ 0xadd) } else { 0 };
+            let how = pick(kv);
             let res = catch(|| add_new_key(map, kk, v, how));
             match res {
                 Err(p) => {
                     rethrow_fuse(&p);
-                    return Err(Viol { extra: Vec::new(), prop: "C04", more, msg: format!("probe insertion {} of {} (through {}) panicked: {p}", i + 1, n, ADD_HOW[(how % 6) as usize]) });
+                    return Err(Viol { extra: Vec::new(), prop: "C04", more, msg: format!("probe insertion {} of {} (through {}) panicked: {p}", i + 1, n, ADD_HOW[(how % 8) as usize]) });
                 }
                 Ok(true) => viol!("C04", "probe key {kv} was reported as already present"),
                 Ok(false) => {}
@@ -1136,8 +1145,8 @@ impl<K: El, V: El> Mon<K, V> {
                 return Err(Viol {
                     extra: Vec::new(),
                     prop: "C04",
-                    more,
-                    msg: format!("probe insertion {} of {} (through {}) allocated a table (state before the probe: {:?}; promised by the preceding capacity call: {})", i + 1, n, ADD_HOW[(how % 6) as usize], st0, promised),
+                    more: if i < promised { &["C10"] } else { &[] },
+                    msg: format!("probe insertion {} of {} (through {}) allocated a table (state before the probe: {:?}; promised by the preceding capacity call: {})", i + 1, n, ADD_HOW[(how % 8) as usize], st0, promised),
                 });
             }
             if self.map.capacity() < self.map.len() {
@@ -1152,6 +1161,25 @@ impl<K: El, V: El> Mon<K, V> {
                 if let Some(v) = self.soft("C04", format!("a resize is still pending after inserting capacity()-len() = {} fresh keys (state before: {:?}, after: {:?})", n, st0, st1)) {
                     return Err(v);
                 }
+                // the table is full and elements are still waiting: go on the same way until they
+                // are moved; a call that cannot cope panics, which is C01's subject as well
+                let waiting = st1.old.as_ref().map_or(0, |o| o.table.len);
+                for j in 0..(waiting + 2).min(4096) {
+                    let kv = self.next_fresh();
+                    let (kk, v) = (K::mk(kv), V::mk(kv));
+                    self.model.insert(kv, Slot { kid: kk.id(), vid: v.id(), pay: kv });
+                    let map = &mut self.map;
+                    let how = pick(kv);
+                    if let Err(p) = catch(|| add_new_key(map, kk, v, how)) {
+                        rethrow_fuse(&p);
+                        return Err(Viol {
+                            extra: Vec::new(),
+                            prop: "C04",
+                            more: &["C01"],
+                            msg: format!("insertion {} after a probe that left the resize pending (through {}) panicked: {p}", j + 1, ADD_HOW[(how % 8) as usize]),
+                        });
+                    }
+                }
             }
         }
         out.act.push(n as u64);
@@ -1161,12 +1189,21 @@ impl<K: El, V: El> Mon<K, V> {
     }
 }
 
-pub const ADD_HOW: [&str; 6] = ["insert", "entry().or_insert", "VacantEntry::insert", "Entry::insert", "RawVacantEntryMut::insert", "raw_entry_mut().or_insert"];
+pub const ADD_HOW: [&str; 8] = [
+    "insert",
+    "entry().or_insert",
+    "VacantEntry::insert",
+    "Entry::insert",
+    "RawVacantEntryMut::insert",
+    "raw_entry_mut().or_insert",
+    "RawVacantEntryMut::insert_with_hasher",
+    "RawVacantEntryMut::insert_hashed_nocheck",
+];
 
 /// Add a key through one of the key-adding calls; true if the call reported it as present.
 pub fn add_new_key<K: El, V: El>(map: &mut HashMap<K, V, Bh>, kk: K, v: V, how: u64) -> bool {
     use griddle::hash_map::{Entry, RawEntryMut};
-    match how % 6 {
+    match how % 8 {
         0 => map.insert(kk, v).is_some(),
         1 => {
             let mut present = false;
@@ -1198,10 +1235,33 @@ pub fn add_new_key<K: El, V: El>(map: &mut HashMap<K, V, Bh>, kk: K, v: V, how: 
             }
             RawEntryMut::Occupied(_) => true,
         },
-        _ => {
+        5 => {
             let present = map.contains_key(&kk);
             map.raw_entry_mut().from_key(&kk).or_insert(kk, v);
             present
+        }
+        6 => {
+            let bh = *map.hasher();
+            let hash = bh.hash_of(kk.val());
+            let val = kk.val();
+            match map.raw_entry_mut().from_hash(hash, |q| q.val() == val) {
+                RawEntryMut::Vacant(e) => {
+                    e.insert_with_hasher(hash, kk, v, |q| bh.hash_of(q.val()));
+                    false
+                }
+                RawEntryMut::Occupied(_) => true,
+            }
+        }
+        _ => {
+            let bh = *map.hasher();
+            let hash = bh.hash_of(kk.val());
+            match map.raw_entry_mut().from_key_hashed_nocheck(hash, &kk) {
+                RawEntryMut::Vacant(e) => {
+                    e.insert_hashed_nocheck(hash, kk, v);
+                    false
+                }
+                RawEntryMut::Occupied(_) => true,
+            }
         }
     }
 }
